@@ -51,7 +51,8 @@ def compare_reader(ctx, tag, mine, theirs, text, html=False):
                 if ("X" in p) != bool(q.get("cxy", 0)) and ("x" in p or "X" in p):
                     report("constrained", "point %s: constrained xy flag differs" % p["id"])
     if [o["id"] for o in mine["orientations"]] != [o["id"] for o in theirs["orientations"]]:
-        report("ids", "orientation ids differ")
+        odd = any(" " in o["id"] or '"' in o["id"] or "'" in o["id"] for o in mine["orientations"])
+        report("ids_with_blank_or_quote" if odd else "ids", "orientation ids %s read back as %s" % ([o["id"] for o in mine["orientations"]], [o["id"] for o in theirs["orientations"]]))
     for o, q in zip(mine["orientations"], theirs["orientations"]):
         if not close(o["adj"], q["adj"], 1e-6 if html else 1e-12):
             report("orientation", "orientation %s adj %r read back as %r" % (o["id"], o["adj"], q["adj"]))
